@@ -44,6 +44,8 @@ var (
 	flagNoReplay = flag.Bool("noreplay", false, "skip native replay")
 	flagVerbose  = flag.Bool("v", false, "verbose")
 	flagPrefix   = flag.String("path", "", "run a single path (debug): decision list k:v,k:v")
+	flagEvidence = flag.Bool("evidence", false, "write /verif/evidence/<prop>.json and print verdict lines")
+	flagSeed     = flag.Int("seed", 0, "VERIF_SEED (orders exploration only)")
 	flagCross    = flag.Bool("cross", false, "re-run harness verdict queries on z3-new and cvc5 (thorough)")
 )
 
@@ -167,6 +169,9 @@ func main() {
 		os.Stdout.Write(b)
 	}
 	summarize(out)
+	if *flagEvidence {
+		os.Exit(writeEvidence(out, known, *flagSeed))
+	}
 }
 
 func summarize(out *RunOutput) {
@@ -189,7 +194,7 @@ func summarize(out *RunOutput) {
 			}
 		}
 		for _, v := range h.Violations {
-			fmt.Printf("  violation %s inputs=%v %s\n", v.Assert, v.Inputs, v.Msg)
+			fmt.Printf("  violation %s inputs=%v confirmed=%v native=%q %s\n", v.Assert, v.Inputs, v.Confirmed, v.NativeOutcome, v.Msg)
 		}
 		for _, m := range h.ReplayBad {
 			fmt.Printf("  replay mismatch: %s\n", m)
